@@ -4,14 +4,15 @@
 \* arguments have different types (read: a number, write: a record).  Same conventions and the
 \* same INIT / EDGE output; the call set is enumerated per method instead.
 \* The configurations explored are selected by the environment variable WQ_SHAPES
-\* ("quick" = the shapes of depth <= 4, anything else = all of WideQueue!Configs).
+\* ("quick" = QuickShapes, anything else = all of WideQueue!Configs).
 EXTENDS Naturals, Sequences, FiniteSets, TLC, Json, IOUtils
 VARIABLES cfg, st, last
 C == INSTANCE WideQueue
 vars == <<cfg, st, last>>
 
 Quick == "WQ_SHAPES" \in DOMAIN IOEnv /\ IOEnv.WQ_SHAPES = "quick"
-MCConfigs == IF Quick THEN {c \in C!Configs : c.depth <= 4} ELSE C!Configs
+QuickShapes == {<<4, 2, 2, FALSE>>, <<4, 1, 2, TRUE>>, <<3, 3, 1, FALSE>>, <<3, 3, 1, TRUE>>}
+MCConfigs == IF Quick THEN {c \in C!Configs : <<c.depth, c.rw, c.ww, c.wmc>> \in QuickShapes} ELSE C!Configs
 
 \* argument sets per method; a method that is not called contributes one dummy choice (ignored
 \* by MkCalls), so that no call set is enumerated twice
